@@ -63,6 +63,7 @@ def shrink(run):
 
 
 sample_of = l0common.sample_of
+preload = l0common.preload
 
 LEVEL_TEXT = ('Seeded search over histories; grading is run on the real '
               'mesh under a deterministic interpreter-event budget and its '
